@@ -219,3 +219,70 @@ claim("C19",
       "position (free-variable analysis). Does not compare frame bytes.",
       "pattern rules + finite-domain folding + free-variable analysis of "
       "closures")
+
+claim("C21",
+      "sterile typestate of every frame a fast group sends (reaching "
+      "definitions at each send), activation order read off the DSL event "
+      "list (exit-while-not-operational, then per writer enable / compare "
+      "with != / clear), program structure inside one packet guard, "
+      "wkc_errors gating, no dropping exit and table bounds in the "
+      "dispatcher, write datagrams registered as writers, stamp parity of "
+      "the dispatcher folded over the counter's parity. Does not decide the "
+      "dispatcher's behaviour over frame histories.",
+      "DSL event-list reader (guarded emission order) + reaching "
+      "definitions + finite-domain folding of the parity protocol")
+claim("C23",
+      "exclusive creation (mode 'x', non-empty election token renamed onto "
+      "the well-known name, only the winner installs), FMMU bitmap writes "
+      "under lockf by a forward lock-state analysis on the CFG, initial "
+      "bitmap marks the creator's own window (folded), teardown order, "
+      "failure cleanup. The creator's unlocked write and detach-after-rmdir "
+      "are recorded findings. Does not explore interleavings or crashes.",
+      "CFG dominance + forward must-hold lock-state dataflow + constant "
+      "folding")
+claim("C25",
+      "no await between membership test and add, add dominates the probe, "
+      "return only in the EtherCatError handler of the probe at the "
+      "candidate, range is class-level configuration never overwritten per "
+      "instance, writers of register 0x10, EtherCatError created only for "
+      "working counter 0. Does not run simulated buses.",
+      "CFG between-nodes await scan + dominance + reaching definitions + "
+      "who-may-construct rule")
+claim("C26",
+      "forward clamp-fact analysis over the DSL event list of "
+      "Motor.program: every limit idiom tests and overwrites the variable "
+      "carrying this pass's command, acceleration limits relative to the "
+      "previous output, then velocity limits, then limit-switch zeroing as "
+      "last stores; 64-bit signed temporary; signed velocity formats. Does "
+      "not decide the bit-vector control law.",
+      "DSL event-list reader + abstract facts per variable (typestate of "
+      "the command value)")
+claim("C27",
+      "decision-table extraction of Valve.update: every path stores coil "
+      "(CFG must-pass), unconditional last branch, per-branch stores and "
+      "their value sources (safeState attribute, not a literal), only the "
+      "good branch refreshes the timer, reset, bit variables read as bool. "
+      "Does not replay histories.",
+      "decision-table extraction + CFG must-pass-through")
+claim("C28",
+      "branch structure of Serial.update: receive/transmit toggles guarded "
+      "and paired with their data, single clearing site, read only when no "
+      "chunk is outstanding, init latching of both peer bits, chunk size vs "
+      "string capacity vs channel block size. Does not decide timings.",
+      "guarded-statement pairing rules + struct size folding")
+claim("C29",
+      "map identity: the ArrayMap() call DeviceVar names is the one every "
+      "map-keeping sync-group class lays out (alias resolution over the "
+      "class index); simulated buffer stored under the map's name in shared "
+      "memory; collect() de-duplication and walk order; rounding; every "
+      "device bound to its group on every loop iteration. Does not observe "
+      "two processes.",
+      "class-attribute alias resolution to AST node identity + CFG "
+      "must-pass-through")
+claim("C30",
+      "order within a cycle on the CFG of update_devices (copy, compare "
+      "with !=, clear, update, return), counters recorded by the append all "
+      "datagrams pass, every send in SyncGroupBase.run transmits the latest "
+      "frame whose reaching definitions are the prepared frame or "
+      "update_devices' result. Does not decide multi-cycle histories.",
+      "CFG dominance + reaching definitions at send sites")
